@@ -333,10 +333,22 @@ def evaluate(case):
             names = [n for _, n in sorted(zip((decl * len(names))[:len(names)], names), key=lambda kv: kv[0])]
         prods = {n: prods[n] for n in names}
         parser = L.LLParser(gk.TOKENIZER, productions=prods, start_symbol_name="E", **tokcfg)
+        decoy = None
+        if case.get("decoy") and B.prods:
+            # a second parser, alive next to the first one, whose templates carry the same symbol names with other options
+            tn = [n for n, v in B.prods.items() if not isinstance(v, list)]
+            if tn:
+                dp = {"E": [tuple(tn)]}
+                for i, n in enumerate(tn):
+                    dp[n] = L.ListProds("[", "WORD", ",", "]", allow_final_delimiter=False) if i % 2 == 0 else \
+                        L.MapProds("{", "NUM", ":", "WORD", ",", "}", allow_final_delimiter=False)
+                decoy = L.LLParser(gk.TOKENIZER, productions=dp, start_symbol_name="E", **tokcfg)
     except Exception as e:   # noqa
         return Outcome(False, ["constructor_raises"], [("constructor_raises_" + type(e).__name__,
                                                         f"schema={fields!r}: {str(e)[-300:]}")])
     classes = set()
+    if decoy is not None:
+        classes.add("second_parser_with_same_template_names_alive")
     for T in fields:
         options(T, classes)
     f = []
@@ -662,7 +674,7 @@ def st_case(draw, maxdepth=3):
                           "poison": draw(st.none() | st.none() | st.integers(0, 4)),
                           "lead_lex": draw(st.integers(0, 7))})
     lead = draw(st.sampled_from([None, None, "WORD", "NUM"]))
-    return {"fields": fields, "instances": instances, "lead": lead, "wrap": draw(st.sampled_from([0, 0, 1, 2, 3])),
+    return {"fields": fields, "instances": instances, "lead": lead, "decoy": draw(st.booleans()), "wrap": draw(st.sampled_from([0, 0, 1, 2, 3])),
             "decl": draw(st.sampled_from([None, "bottomup", "shuffle"]).flatmap(
                 lambda d: st.lists(st.integers(0, 9), min_size=7, max_size=7) if d == "shuffle" else st.just(d)))}
 
